@@ -3,7 +3,7 @@ use crate::common::*;
 use crate::refdual::*;
 use crate::spec::*;
 use num_traits::{One, Signed, Zero};
-use rateslib::dual::{Dual, Dual2, Number};
+use rateslib::dual::{Dual, Dual2, Gradient1, Gradient2, Number};
 use serde::{Deserialize, Serialize};
 use serde_json::json;
 use std::cmp::Ordering;
@@ -153,6 +153,28 @@ pub fn check(case: &Case, idx: u64, acc: &mut Acc) {
             if a.v != b.v && (!a.names.is_empty() || !b.names.is_empty()) {
                 acc.nontrivial();
             }
+            // positive difference: zero (no derivatives) when a <= b, otherwise a - b
+            {
+                acc.evals_add(2);
+                let (d1, e1) = (a.dual(&u), b.dual(&u));
+                let (d2, e2) = (a.dual2(&u), b.dual2(&u));
+                let (s1, s2) = (d1.abs_sub(&e1), d2.abs_sub(&e2));
+                if a.v <= b.v {
+                    if s1.real() != 0.0 || s1.dual().iter().any(|x| *x != 0.0) {
+                        acc.violate("abs_sub/Dual/not-greater", idx, cj(), json!(0.0), json!(format!("{:?}", s1)));
+                    }
+                    if s2.real() != 0.0 || s2.dual().iter().any(|x| *x != 0.0) || s2.dual2().iter().any(|x| *x != 0.0) {
+                        acc.violate("abs_sub/Dual2/not-greater", idx, cj(), json!(0.0), json!(s2.real()));
+                    }
+                } else {
+                    if let Err(e) = cmp_dual(&s1, &a.refd1().sub(&b.refd1()), &u, TOL, TOL) {
+                        acc.violate("abs_sub/Dual/greater", idx, cj(), json!("a - b"), json!(e));
+                    }
+                    if let Err(e) = cmp_dual2(&s2, &a.refd2().sub(&b.refd2()), &u, TOL, TOL, TOL) {
+                        acc.violate("abs_sub/Dual2/greater", idx, cj(), json!("a - b"), json!(e));
+                    }
+                }
+            }
             let (d1, e1) = (a.dual(&u), b.dual(&u));
             ord_checks(acc, idx, case, "Dual,Dual", a.v, b.v, d1.partial_cmp(&e1), d1 < e1, d1 <= e1, d1 > e1, d1 >= e1);
             ord_checks(acc, idx, case, "Dual,f64", a.v, b.v, d1.partial_cmp(&b.v), d1 < b.v, d1 <= b.v, d1 > b.v, d1 >= b.v);
@@ -173,6 +195,36 @@ pub fn check(case: &Case, idx: u64, acc: &mut Acc) {
             }
         }
         Case::Abs { a } => {
+            // sign queries agree with the float's own (also at +-0)
+            {
+                acc.evals_add(3);
+                let (d, d2) = (a.dual(&u), a.dual2(&u));
+                let want = (Signed::signum(&a.v), Signed::is_positive(&a.v), Signed::is_negative(&a.v));
+                let g1 = d.signum();
+                let g2 = d2.signum();
+                if g1.real().to_bits() != want.0.to_bits() || g1.dual().iter().any(|x| *x != 0.0) || d.is_positive() != want.1 || d.is_negative() != want.2 {
+                    acc.violate("sign/Dual", idx, cj(), json!(format!("{:?}", want)), json!(format!("{:?} {} {}", g1, d.is_positive(), d.is_negative())));
+                }
+                if g2.real().to_bits() != want.0.to_bits() || g2.dual().iter().any(|x| *x != 0.0) || g2.dual2().iter().any(|x| *x != 0.0) || d2.is_positive() != want.1 || d2.is_negative() != want.2 {
+                    acc.violate("sign/Dual2", idx, cj(), json!(format!("{:?}", want)), json!(format!("{:?} {} {}", g2.real(), d2.is_positive(), d2.is_negative())));
+                }
+                for o in [1u8, 2] {
+                    let n = a.number(&u, o);
+                    let s = n.signum();
+                    if f64::from(&s).to_bits() != want.0.to_bits() || n.is_positive() != want.1 || n.is_negative() != want.2 {
+                        acc.violate(&format!("sign/Number{}", o), idx, cj(), json!(format!("{:?}", want)), json!(format!("{:?} {} {}", s, n.is_positive(), n.is_negative())));
+                    }
+                }
+                // is_zero: value zero AND no non-zero derivative (it is the type's own equality with zero)
+                let z1 = a.v == 0.0 && a.g.iter().all(|x| *x == 0.0);
+                let z2 = z1 && a.h.iter().all(|x| *x == 0.0);
+                if d.is_zero() != z1 || a.number(&u, 1).is_zero() != z1 {
+                    acc.violate("is_zero/Dual", idx, cj(), json!(z1), json!(d.is_zero()));
+                }
+                if d2.is_zero() != z2 || a.number(&u, 2).is_zero() != z2 {
+                    acc.violate("is_zero/Dual2", idx, cj(), json!(z2), json!(d2.is_zero()));
+                }
+            }
             if a.v == 0.0 {
                 acc.skip();
                 return;
@@ -434,7 +486,7 @@ pub fn run(ctx: &Ctx, replay_file: Option<String>) -> ! {
     let acc = explore(&cs, check);
     let meta = Meta::exploration(
         "every pair of numbers from (value table x 4 derivative contents) for comparisons and remainder in the forms \
-         dual-dual / dual-float / float-dual, on Dual, Dual2 and Number; abs and the zero/one identities on every \
+         dual-dual / dual-float / float-dual, on Dual, Dual2 and Number; abs, signum / is_positive / is_negative / is_zero (also at +-0), abs_sub on every pair, and the zero/one identities on every \
          number; every sequence of length 0..L over a 5-number pool for sum (items realised both as fresh numbers and as \
          clones of one object), plus rotating sequences of length 7, 8, 9, 15, 16, 17, 31..34, 64, 65, 130 over a pool widened by numbers carrying all three names in several stored orders; remainders with quotients of 1e13 .. 1e27 (beyond 2^53 and 2^63). Non-trivial: comparisons of unequal \
          values with derivatives present, abs of negative numbers with derivatives, remainders with negative \
